@@ -46,6 +46,14 @@ func tfSchema() *schema.BodySchema {
 				"oneof": {IsOptional: true, Constraint: schema.OneOf{schema.Reference{OfScopeId: "variable"}, schema.LiteralType{Type: cty.String}}},
 				"strs":  {IsOptional: true, Constraint: schema.LiteralType{Type: cty.List(cty.String)}},
 				"multi": {IsOptional: true, Constraint: schema.OneOf{schema.List{Elem: schema.Reference{OfScopeId: "variable"}}, schema.AnyExpression{OfType: cty.String}}},
+				// one attribute per collection constraint kind (each is a block-local declaration, self.<name>)
+				"cset":  {IsOptional: true, Constraint: schema.Set{Elem: schema.LiteralType{Type: cty.String}}},
+				"clist": {IsOptional: true, Constraint: schema.List{Elem: schema.LiteralType{Type: cty.String}}},
+				"cmap":  {IsOptional: true, Constraint: schema.Map{Elem: schema.LiteralType{Type: cty.String}}},
+				"cobj":  {IsOptional: true, Constraint: schema.Object{Attributes: schema.ObjectAttributes{"a": {IsOptional: true, Constraint: schema.LiteralType{Type: cty.String}}}}},
+				"ctup":  {IsOptional: true, Constraint: schema.Tuple{Elems: []schema.Constraint{schema.LiteralType{Type: cty.String}, schema.LiteralType{Type: cty.Number}}}},
+				"cany":  {IsOptional: true, Constraint: schema.AnyExpression{OfType: cty.List(cty.String)}},
+				"cself": {IsOptional: true, Constraint: schema.AnyExpression{OfType: cty.DynamicPseudoType}},
 			},
 			Blocks: map[string]*schema.BlockSchema{
 				"opts": {Type: schema.BlockTypeObject, MaxItems: 1, Body: &schema.BodySchema{Attributes: map[string]*schema.AttributeSchema{
@@ -439,6 +447,18 @@ func (g *tfGen) resource(i int) {
 		fmt.Fprintf(&g.sb, "  size = 1\n")
 		g.refs = append(g.refs, TfRef{Addr: "self.size", Attr: "sz", Declared: true, AdmitsRef: true})
 		fmt.Fprintf(&g.sb, "  sz = self.size\n")
+	}
+	{
+		// a set-typed attribute in every block, one attribute of another collection constraint kind in turn, and a
+		// self reference to one of the two (no random draw)
+		ck := [][2]string{{"clist", `["a"]`}, {"cmap", `{ k = "v" }`}, {"cobj", `{ a = "v" }`}, {"ctup", `["a", 1]`}, {"cany", `["a"]`}}[i%5]
+		fmt.Fprintf(&g.sb, "  cset = [\"a\", \"b\"]\n  %s = %s\n", ck[0], ck[1])
+		target := "self.cset"
+		if i%2 == 1 {
+			target = "self." + ck[0]
+		}
+		g.refs = append(g.refs, TfRef{Addr: target, Attr: "cself", Declared: true, AdmitsRef: true})
+		fmt.Fprintf(&g.sb, "  cself = %s\n", target)
 	}
 	if typ == "aws" {
 		fmt.Fprintf(&g.sb, "  zone = %q\n", "z1")
